@@ -70,7 +70,11 @@ func Verif_C18_pool() {
 		case 0: // Get, when it cannot block
 			n, idle := live()
 			if idle == 0 && n >= limit {
-				continue
+				// Every live resource is held: a Get has to wait (observed with a real
+				// waiter in H18b2/H18b3); here only the pool's own view is checked.
+				verifAssert(p.head == nil && p.created >= p.limit, "with the limit of live resources held and none idle the pool would make a Get wait, not create another resource")
+				verifReach("at-limit")
+				break
 			}
 			x := p.Get()
 			r, ok := x.(*verifRes)
@@ -96,8 +100,9 @@ func Verif_C18_pool() {
 			r.putAt = verifClock
 			p.Put(r)
 		}
-		n, _ := live()
+		n, idle := live()
 		verifAssert(n <= limit, "never more live resources than the limit")
+		verifPoolAccounting(p, len(held), idle)
 		for _, r := range all {
 			verifAssert(r.destroys <= 1, "destroy is called at most once per resource")
 			if r.destroys == 1 {
@@ -111,6 +116,23 @@ func Verif_C18_pool() {
 		}
 	}
 	verifReach("done")
+}
+
+// verifPoolAccounting: the pool's counter of live resources agrees with the
+// harness's books after every operation: created == resources held by callers
+// + resources idle in the pool's list. The limit is enforced through this
+// counter (Get creates iff created < limit), so a drift in either direction
+// ends in more live resources than the limit or in a Get that waits for ever.
+func verifPoolAccounting(p *Pool, held, idle int) {
+	p.lock.Lock()
+	n := 0
+	for x := p.head; x != nil; x = x.next {
+		n++
+	}
+	created := p.created
+	p.lock.Unlock()
+	verifAssert(n == idle, "the pool's idle list holds exactly the resources put back and not taken or destroyed since")
+	verifAssert(created == held+idle, "the pool's count of live resources equals those held by callers plus those idle in the pool")
 }
 
 // H18b2: a Get at the limit. With `limit` resources held and none idle, a
